@@ -877,11 +877,18 @@ def run(ctx):
                 "specified single copy of eight mount scenarios; each is put to the real functions / the real DockerConnector "
                 "over a fake docker CLI with mount-namespace containers; a copy case is non-trivial (all are: source exists, "
                 "target fresh)")
-    part_paths(ctx)
-    part_misc(ctx)
-    scen, traces = part_model_and_copies(ctx)
-    traces += part_behaviours(ctx, scen)
-    validate_traces(ctx, traces)
+    timing = ctx.extra.setdefault("timing_s", {})
+
+    def timed(name, f, *a):
+        t0 = time.time()
+        r = f(*a)
+        timing[name] = round(time.time() - t0, 1)
+        return r
+    timed("paths", part_paths, ctx)
+    timed("parsers_effective_hardware", part_misc, ctx)
+    scen, traces = timed("model_and_copies", part_model_and_copies, ctx)
+    traces += timed("behaviours", part_behaviours, ctx, scen)
+    timed("trace_validation", validate_traces, ctx, traces)
     ctx.assumptions += [
         "docker cleans mount paths (no trailing slash, no '.' / '..') in `docker inspect`; mount points reported by `df` are clean",
         "a tmpfs mount is invisible to the connector (df type tmpfs is skipped): nothing is demanded for paths it governs",
